@@ -48,6 +48,15 @@ pub struct RefSchema<'a> {
     pub optional_input: bool,
     /// resolver-file flavour: object types without `__typename`
     pub omit_typename: bool,
+    /// model plugin: Some(..) when the plugin is configured. Object types with `@model(type: T)` map to
+    /// the text T; every other object type's resolver-side alias keeps only its `@model` fields.
+    pub model: Option<ModelUse>,
+}
+
+#[derive(Clone, Debug, Default)]
+pub struct ModelUse {
+    pub object_types: BTreeMap<String, String>,
+    pub fields: BTreeMap<String, Vec<String>>,
 }
 
 impl RefSchema<'_> {
@@ -79,6 +88,15 @@ impl RefSchema<'_> {
     pub fn local_def(&self, name: &str, target: Target) -> Option<RT> {
         let d = self.sch.types.get(name)?;
         Some(match d.kind {
+            TsKind::Object if self.model.as_ref().is_some_and(|m| m.object_types.contains_key(name)) => RT::Ts(self.model.as_ref().unwrap().object_types[name].clone()),
+            TsKind::Object if self.model.is_some() => match self.def(name, target)? {
+                // Pick<Schema.__ResolverOutput.X, model fields>
+                RT::Obj(m) => {
+                    let keep = self.model.as_ref().unwrap().fields.get(name).cloned().unwrap_or_default();
+                    RT::Obj(m.into_iter().filter(|(k, _)| keep.contains(k)).collect())
+                }
+                o => o,
+            },
             TsKind::Object => match self.def(name, target)? {
                 RT::Obj(mut m) => {
                     m.remove("__typename");
